@@ -159,12 +159,15 @@ class SymCtx(BaseCtx):
         with NoTracing():
             self.notes[key] = value
 
-    def fresh_env(self):
+    def fresh_env(self, hashcons="exact"):
         from unified_planning.environment import Environment
 
         with NoTracing():
             env = Environment()
-            shims.linear_tables(env)
+            if hashcons == "exact":
+                shims.linear_tables(env)
+            else:
+                shims.syntactic_tables(env)
         return env
 
     # -- models
@@ -220,9 +223,10 @@ def _classify_exception(exc, tb):
         fn = fr.filename
         if "/crosshair/" in fn or "/z3/" in fn:
             continue
-        if fn.startswith("/repo/"):
+        repo = os.environ.get("VERIF_REPO", "/repo").rstrip("/")
+        if fn.startswith(repo + "/"):
             where = "repo"
-            loc = f"{os.path.relpath(fn, '/repo')}:{fr.name}"
+            loc = f"{os.path.relpath(fn, repo)}:{fr.name}"
         else:
             loc = f"{os.path.basename(fn)}:{fr.name}"
         break
